@@ -12,10 +12,15 @@ package finalizers
 // C11: the key of a cached JWT covers signer, claims template, ttl, the whole subject and the
 // pipeline outputs (marshalled as a whole: deterministic), independent of map iteration order.
 //@ func (*jwtFinalizer).calculateCacheKey
-//@   props C11
+//@   props C11 C16
 //@   nomaprange Write
 //@   ensures shanew.n > old(shanew.n) && shash.n == old(shash.n) + 1 && shash.arg0[old(shash.n)] == sub
 //@   ensures (exists k int :: old(hw.n) <= k && k < hw.n && hw.arg0[k] == shanew.ret0[old(shanew.n)] && hw.arg1[k] == shash.ret0[old(shash.n)])
+// C16 "`exp` exactly the configured TTL later": a cached token was issued under the TTL in force for
+// this finalizer instance - the TTL is part of the key (ghost log le64 = PutUint64: arg1 = buffer,
+// arg2 = value), so a rule-level `ttl` never receives the token of the catalogue entry
+//@   ensures le64.n == old(le64.n) + 1 && (old(f.ttl) >= 0 && old(f.ttl) <= 9223372036854775807 ==> le64.arg2[old(le64.n)] == old(f.ttl))
+//@   ensures (exists k int :: old(hw.n) <= k && k < hw.n && hw.arg0[k] == shanew.ret0[old(shanew.n)] && hw.arg1[k] == le64.arg1[old(le64.n)])
 
 // C16: the signer switches to a new key store atomically and only after every check passed; a
 // rejected reload leaves the active key, its JWK and the published key set untouched.
@@ -39,10 +44,12 @@ package finalizers
 //@   ensures ret0 == s.pubKeys
 
 // C16: a token is signed with the active key under the active JWK's algorithm and names its key id;
-// algorithm, key and key id are read from one state of the signer. The claims handed to the token
+// algorithm, key and key id are read from one state of the signer (one read-lock section per call:
+// a reload cannot land between reading the JWK and reading the key). The claims handed to the token
 // builder carry sub, iss, iat, nbf and exp = iat + ttl whatever the custom claims contain.
 //@ func (*jwtSigner).Sign
 //@   props C16
+//@   ensures mrlock.n == old(mrlock.n) + 1 && mrunlock.n == old(mrunlock.n) + 1
 //@   assert at call NewSigner#1@fcfa0814.1: callarg0.Algorithm == old(s.jwk.Algorithm) && callarg0.Key == iface(old(s.key))
 //@   assert at call WithHeader#1@b9f14be3.1: callarg1 == "kid" && callarg2 == iface(old(s.jwk.KeyID))
 //@   assert at call WithHeader#2@4ac0d60b.1: callarg1 == "alg" && callarg2 == iface(old(s.jwk.Algorithm))
